@@ -219,6 +219,10 @@ def dict_keyword_access(d, key):
         yaql> {"a" => 1, "b" => 2}.a
         1
     """
+    if key not in d:
+        # plain lookup semantics for every mapping: a host mapping with a
+        # __missing__ hook (collections.defaultdict) must not grow by being read
+        raise KeyError(key)
     return d[key]
 
 
@@ -241,6 +245,10 @@ def dict_indexer(d, key):
         yaql> {"a" => 1, "b" => 2}["a"]
         1
     """
+    if key not in d:
+        # plain lookup semantics for every mapping: a host mapping with a
+        # __missing__ hook (collections.defaultdict) must not grow by being read
+        raise KeyError(key)
     return d[key]
 
 
